@@ -663,16 +663,19 @@ class C14(Check):
                    ciaddr=self.IPAddr(L["ciaddr"]), yiaddr=self.IPAddr(L["yiaddr"]), siaddr=self.IPAddr(L["siaddr"]), giaddr=self.IPAddr(L["giaddr"]),
                    chaddr=(self.EthAddr(ch[:6]) if L["hlen"] == 6 else ch), sname=bytes.fromhex(L["sname"]), file=bytes.fromhex(L["file"]))
         for op in L["options"]:
-            c = op["c"]
-            if "raw" in op: o.options[c] = M.DHCPRawOption(bytes.fromhex(op["raw"]))          # any code, value given as bytes
-            elif c == 53: o.options[c] = M.DHCPMsgTypeOption(op["v"])
-            elif c in (1, 28, 50, 54):
-                o.options[c] = {1: M.DHCPSubnetMaskOption, 28: M.DHCPBroadcastAddressOption, 50: M.DHCPRequestIPOption, 54: M.DHCPServerIdentifierOption}[c](self.IPAddr(op["v"]))
-            elif c in (3, 4, 6): o.options[c] = {3: M.DHCPRoutersOption, 4: M.DHCPTimeServersOption, 6: M.DHCPDNSServersOption}[c]([self.IPAddr(a) for a in op["v"]])
-            elif c in (51, 58, 59): o.options[c] = {51: M.DHCPIPAddressLeaseTimeOption, 58: M.DHCPRenewalTimeOption, 59: M.DHCPRebindingTimeOption}[c](op["v"])
-            elif c == 55: o.options[c] = M.DHCPParameterRequestOption(list(op["v"]))
-            else: o.options[c] = M.DHCPRawOption(bytes.fromhex(op["v"]))
+            o.options[op["c"]] = self._dhcp_opt(op)
         return o
+    def _dhcp_opt(self, op):
+        M = self.m["dhcp"]; c = op["c"]
+        if op.get("plain"): return bytes.fromhex(op["raw"] if "raw" in op else op["v"])          # the dictionary also takes plain bytes values
+        if "raw" in op: return M.DHCPRawOption(bytes.fromhex(op["raw"]))          # any code, value given as bytes
+        if c == 53: return M.DHCPMsgTypeOption(op["v"])
+        if c in (1, 28, 50, 54):
+            return {1: M.DHCPSubnetMaskOption, 28: M.DHCPBroadcastAddressOption, 50: M.DHCPRequestIPOption, 54: M.DHCPServerIdentifierOption}[c](self.IPAddr(op["v"]))
+        if c in (3, 4, 6): return {3: M.DHCPRoutersOption, 4: M.DHCPTimeServersOption, 6: M.DHCPDNSServersOption}[c]([self.IPAddr(a) for a in op["v"]])
+        if c in (51, 58, 59): return {51: M.DHCPIPAddressLeaseTimeOption, 58: M.DHCPRenewalTimeOption, 59: M.DHCPRebindingTimeOption}[c](op["v"])
+        if c == 55: return M.DHCPParameterRequestOption(list(op["v"]))
+        return M.DHCPRawOption(bytes.fromhex(op["v"]))
     def mk_dns(self, L, n):
         M = self.m["dns"]
         o = M.dns(id=L["id"], qr=L["qr"], opcode=L["opcode"], aa=L["aa"], tc=L["tc"], rd=L["rd"], ra=L["ra"], z=L["z"], ad=L["ad"], cd=L["cd"], rcode=L["rcode"])
